@@ -175,6 +175,26 @@ func (db *Database) DeleteRange(start, end []byte) error {
 }
 
 func (db *Database) Compact(start []byte, limit []byte) error {
+	if limit == nil {
+		// database.Compacter treats a nil limit as a key after all keys, pebble
+		// treats it as a key before all keys: use the greatest key instead.
+		it, err := db.db.NewIter(&pebble.IterOptions{})
+		if err != nil {
+			return updateError(err)
+		}
+		if !it.Last() {
+			// The database is empty.
+			return updateError(it.Close())
+		}
+		limit = bytes.Clone(it.Key())
+		if err := it.Close(); err != nil {
+			return updateError(err)
+		}
+	}
+	if bytes.Compare(start, limit) >= 0 {
+		// pebble requires start < limit
+		return nil
+	}
 	return updateError(db.db.Compact(start, limit, false))
 }
 
